@@ -25,7 +25,13 @@ RULE = ("cases: generated function / class signatures written as real modules in
         "argv is parsed with the equivalent hand-written dataclass and the callable is called directly with those values. "
         "config_for cases: function and class targets with ignore lists, **defaults overrides, class annotations and "
         "inferred types; Partial call with explicit kwargs; cache histories over several targets and argument forms. "
-        "Unit ops: only_keep_action_args over all stock action names, CPython binding, type inference. Non-trivial = a "
+        "config_for targets carry Google-style docstrings (function, class and/or __init__) whose Args entries have second "
+        "colons (ratios, URLs, 'one of: …'), type suffixes 'x (int)', padding, multi-line continuations, undocumented and "
+        "phantom names, and a small malformed stream; help text per option is compared. call.cachemany: the same callable is "
+        "requested again after config classes were derived for k in {1,50,130,300} other callables (identity, isinstance of "
+        "the earlier object, equality of re-parses). "
+        "Unit ops: only_keep_action_args over all stock action names, CPython binding, type inference, the Args-section "
+        "reader on generated and hand-written docstrings. Non-trivial = a "
         "signature with >= 2 parameters and (non-empty argv | an ignore list / override | >= 2 cache calls | a filtered "
         "key); distinct by canonical JSON of the case.")
 ASSUMPTIONS = [
@@ -39,7 +45,7 @@ ASSUMPTIONS = [
 TRUSTED = ["CPython argument binding (modelled by `bind`, compared against real calls by op call.bind)",
            "stdlib argparse action constructor signatures (table `stockCtorArgs`, compared by op call.keep)"]
 EXHAUSTIVE = {"quick": False, "thorough": False}
-THOROUGH_ROUNDS = 5   # thorough tier: this many generator passes with derived PRNG states (vcheck)
+THOROUGH_ROUNDS = 8   # thorough tier: this many generator passes with derived PRNG states (vcheck)
 
 # ------------------------------------------------------------------------------------------------
 # type table: annotation source -> class for the model, default literals, argv tokens for one value
@@ -498,8 +504,100 @@ def gen_cfg_target(rng, idx=0, e2e=False):
                 params.append({"name": name, "kind": kind, "ty": None, "dflt": d, "vty": vty})
             else:
                 params.append({"name": name, "kind": kind, "ty": None, "dflt": None, "vty": None})
-    return {"name": f"Tgt{idx}" if is_class else f"tgt{idx}", "is_class": is_class, "params": params,
-            "class_ann": class_ann, "doc": rng.random() < 0.4}
+    t = {"name": f"Tgt{idx}" if is_class else f"tgt{idx}", "is_class": is_class, "params": params,
+         "class_ann": class_ann}
+    t["docs"] = gen_docs(rng, t, allow_malformed=not e2e)
+    return t
+
+
+# descriptions as people write them: second colons (ratios, URLs, "one of: …"), brackets, dashes, percent signs
+DESCS = ["the {n} value", "ratio like 1:2", "address, e.g. https://example.org:443", "one of: a, b, c", "plain text",
+         "", "100% (approx.) [see notes]", "uses a - dash -- and = equals", "time as HH:MM:SS; default: none",
+         "Default: 3. Range: 0..9", "path such as C:/tmp/x"]
+CONTS = ["continued on a second line", "note: with a colon", "and a third: line", "(optional)"]
+HEADERS = ["Args:", "Args:", "Arguments:", "Parameters:"]
+
+
+def gen_doc_block(rng, names, malformed=None):
+    """one docstring with an Args section (a spec; `doc_text` renders it with the indentation of its position)"""
+    entries = []
+    documented = [n for n in names if rng.random() < 0.8]
+    rng.shuffle(documented) if rng.random() < 0.3 else None
+    for n in documented:
+        key = n
+        r = rng.random()
+        if r < 0.2:
+            key = f"{n} (int)"
+        elif r < 0.27:
+            key = f"{n} "
+        entries.append({"key": key, "desc": rng.choice(DESCS).format(n=n), "pre": rng.choice([" ", " ", " ", "", "   "]),
+                        "trail": rng.choice(["", "", "", "  "]), "cont": [rng.choice(CONTS) for _ in range(rng.choice([0, 0, 0, 1, 2]))],
+                        "blank_after": rng.random() < 0.15})
+    if rng.random() < 0.3:      # a documented name that is not a parameter
+        entries.insert(rng.randrange(len(entries) + 1), {"key": rng.choice(["ghost", "zz_extra", "self"]), "desc": "not in the signature: ignored",
+                                                         "pre": " ", "trail": "", "cont": [], "blank_after": False})
+    block = {"header": rng.choice(HEADERS), "entries": entries, "intro": rng.choice([None, "Longer text: it has a colon too.", "Usage::"]),
+             "returns": rng.random() < 0.5, "malformed": malformed}
+    return block
+
+
+def gen_docs(rng, t, allow_malformed=False):
+    """where the target carries docstrings: function docstring, or class docstring and/or __init__ docstring"""
+    if rng.random() < 0.35:
+        return {"class": None, "init": None}
+    names = [p["name"] for p in t["params"]]
+    mal = None
+    if allow_malformed and rng.random() < 0.06:
+        mal = rng.choice(["nocolon", "orphan-cont"])
+    if not t["is_class"]:
+        return {"class": gen_doc_block(rng, names, mal), "init": None}
+    r = rng.random()
+    if r < 0.35:
+        return {"class": gen_doc_block(rng, names, mal), "init": None}
+    if r < 0.75:
+        return {"class": None, "init": gen_doc_block(rng, names, mal)}
+    return {"class": gen_doc_block(rng, names), "init": gen_doc_block(rng, names, mal)}
+
+
+def doc_text(block, ind):
+    """the raw `__doc__` (first line unindented, the rest at the indentation `ind` of the definition body)"""
+    if block is None:
+        return None
+    pad = " " * ind
+    lines = ["A target.", ""]
+    if block["intro"]:
+        lines += [pad + block["intro"], ""]
+    lines.append(pad + block["header"])
+    if block.get("malformed") == "orphan-cont":
+        lines.append(pad + "        dangling continuation before any entry")
+    for e in block["entries"]:
+        lines.append(pad + "    " + e["key"] + ":" + e["pre"] + e["desc"] + e["trail"])
+        for k, cont in enumerate(e["cont"]):
+            lines.append(pad + "        " + ("  " if k else "") + cont)
+        if e["blank_after"]:
+            lines.append("")
+    if block.get("malformed") == "nocolon":
+        lines.append(pad + "    an entry line without the separator")
+    if block["returns"]:
+        lines += ["", pad + "Returns:", pad + "    dict: the arguments it received"]
+    lines.append(pad)
+    return "\n".join(lines)
+
+
+def documented_help(block, name):
+    """descriptions (whitespace-normalised) the docstring gives for keys that start with `name` (the code's rule)"""
+    if block is None:
+        return []
+    out = []
+    for e in block["entries"]:
+        if e["key"].startswith(name):
+            out.append(" ".join((e["desc"] + " " + " ".join(e["cont"])).split()))
+    return out
+
+
+def docs_malformed(t):
+    d = t.get("docs") or {}
+    return any(b is not None and b.get("malformed") for b in (d.get("class"), d.get("init")))
 
 
 def cfg_target_source(t):
@@ -508,21 +606,20 @@ def cfg_target_source(t):
     names = [p["name"] for p in params]
     body = "CALLS.append((args, dict(kwargs)))"
     ret = "{" + ", ".join(f'"{n}": {n}' for n in names) + "}"
-    doc = ""
-    if t.get("doc"):
-        lines = ['"""A target.', "", "Args:"] + [f"    {n}: the {n} value" for n in names] + ['"""']
-        doc = "\n".join(lines)
+    docs = t.get("docs") or {"class": None, "init": None}
     if t["is_class"]:
+        cdoc, idoc = doc_text(docs["class"], 4), doc_text(docs["init"], 8)
         src = f"class {t['name']}:\n"
-        if doc:
-            src += textwrap.indent(doc, "    ") + "\n"
+        if cdoc is not None:
+            src += f"    {cdoc!r}\n"
         for n, ty in t["class_ann"]:
             src += f"    {n}: {ty}\n"
-        src += f"    def _real_init(self, {sig}):\n        self.bound = {ret}\n\n"
+        src += f"    def _real_init(self, {sig}):\n" + (f"        {idoc!r}\n" if idoc is not None else "") + f"        self.bound = {ret}\n\n"
         src += (f"    @functools.wraps(_real_init)\n    def __init__(self, *args, **kwargs):\n        {body}\n"
                 f"        self._real_init(*args, **kwargs)\n\n")
         return src
-    src = f"def {t['name']}_impl({sig}):\n" + (textwrap.indent(doc, "    ") + "\n" if doc else "") + f"    return {ret}\n\n"
+    fdoc = doc_text(docs["class"], 4)
+    src = f"def {t['name']}_impl({sig}):\n" + (f"    {fdoc!r}\n" if fdoc is not None else "") + f"    return {ret}\n\n"
     src += (f"@functools.wraps({t['name']}_impl)\ndef {t['name']}(*args, **kwargs):\n    {body}\n"
             f"    return {t['name']}_impl(*args, **kwargs)\n\n")
     return src
@@ -650,6 +747,41 @@ def gen_cache_case(rng):
     return {"targets": targets, "calls": calls}
 
 
+DOC_LITERALS = ["", "Args:", "No section at all: just text.", "Args:\n  x: indented by two only", "Args:\n\tx: a tab",
+                "Args:\n    x: first\nArgs:\n    y: after a second header", "  Args:\n      x: one\n      x: twice\n    y: dedented",
+                "Args:\n    x: a\n        more\n          even more: deep\n    y (int):b:c:d\n", "Parameters: inline text\n    p: q",
+                "Args:\n    : empty key\n    k:\n        only continuation", "Args:\n        too deep first\n    x: y",
+                "Args:\n    x: y\n    no separator here\n    z: w", "Arguments:\n    url: http://h:80/p?q=1:2 \n    \n    n:  3  "]
+
+
+def gen_docargs_case(rng):
+    names = rng.sample(NAMES, rng.choice([1, 2, 3, 4]))
+    mal = rng.choice([None, None, None, None, "nocolon", "orphan-cont"])
+    block = gen_doc_block(rng, names, mal)
+    ind = rng.choice([0, 4, 8])
+    return {"doc": doc_text(block, ind), "block": block, "ind": ind}
+
+
+CACHE_KS = [1, 50, 130, 300]
+
+
+def gen_cachemany_case(rng, k):
+    def parses(c):      # every required option is on the command line
+        ign, ov, given = set(ignore_names(c["ignore"])), dict(c["overrides"]), {g[0] for g in c["given"]}
+        return all(p["name"] in given for p in c["target"]["params"]
+                   if p["name"] not in ign and p["vty"] is not None and ov.get(p["name"], p["dflt"]) is None)
+
+    c = gen_partial_case(rng)
+    for _ in range(30):
+        if parses(c):
+            break
+        c = gen_partial_case(rng)
+    if c["ignore"]["form"] == "list":
+        c["ignore"] = {"form": "tuple", "names": list(c["ignore"]["names"])}
+    c["k"] = k
+    return c
+
+
 SHAPE_VALUES = ["3", "2.5", '"s"', "True", "None", "()", "(1,)", '(1, "a", 2.5)', "((1, 2), 3)", "(None,)", "[]", "[1, 2]",
                 '["a"]', "[None]", "[[1]]", "[(1, 2)]", "{}", '{"a": 1}', "(1, [2])", "([],)", "({},)", '({"a": 1},)',
                 "b'x'", "(1, (2, (3, None)))", "[{}]", "[[]]"]
@@ -660,13 +792,13 @@ def gen(rng, tier):
     # unit: only_keep_action_args
     for a in ACTIONS:
         yield {"op": "call.keep", "case": {"keys": list(OPTION_KEYS), "action": a}}
-    for _ in range(150 if q else 1500):
+    for _ in range(150 if q else 500):
         yield {"op": "call.keep", "case": gen_keep_case(rng)}
     # unit: inference
     for s in SHAPE_VALUES:
         yield {"op": "call.infer", "case": {"src": s}}
     # unit: binding
-    for _ in range(250 if q else 4000):
+    for _ in range(250 if q else 1500):
         yield {"op": "call.bind", "case": gen_bind_case(rng)}
     # main: one-parameter sweep over every type x kind x default (fields + end-to-end)
     for ty in TY:
@@ -684,7 +816,7 @@ def gen(rng, tier):
                         g = {"tok": ["true"], "form": "long"}
                     cc["params"][0]["given"] = g
                     yield {"op": "call.main", "case": cc}
-    n_main = 260 if q else 6000
+    n_main = 260 if q else 2500
     for i in range(n_main):
         r = rng.random()
         c = gen_main_case(rng, malformed=r < 0.15, allow_bool=r > 0.2)
@@ -692,12 +824,21 @@ def gen(rng, tier):
         if i % 3 == 0:
             yield {"op": "call.fields", "case": {k: v for k, v in c.items()}}
     # config_for
-    for _ in range(150 if q else 2500):
+    for _ in range(150 if q else 1200):
         yield {"op": "call.config", "case": gen_config_case(rng)}
-    for _ in range(150 if q else 3000):
+    for _ in range(150 if q else 1200):
         yield {"op": "call.partial", "case": gen_partial_case(rng, malformed=rng.random() < 0.12)}
-    for _ in range(80 if q else 1200):
+    for _ in range(80 if q else 500):
         yield {"op": "call.cache", "case": gen_cache_case(rng)}
+    # the same callable requested again after k OTHER callables had their config classes derived
+    for k in CACHE_KS:
+        for _ in range(2):
+            yield {"op": "call.cachemany", "case": gen_cachemany_case(rng, k)}
+    # unit: the docstring Args-section reader
+    for d in DOC_LITERALS:
+        yield {"op": "call.docargs", "case": {"doc": d, "block": None, "ind": 0}}
+    for _ in range(120 if q else 500):
+        yield {"op": "call.docargs", "case": gen_docargs_case(rng)}
 
 
 # ------------------------------------------------------------------------------------------------
@@ -903,8 +1044,26 @@ def _cfg_fields(cls):
     out = []
     for f in dataclasses.fields(cls):
         req = f.default is dataclasses.MISSING and f.default_factory is dataclasses.MISSING
-        out.append({"name": f.name, "required": req, "default": None if req else cs(f.default)})
+        out.append({"name": f.name, "required": req, "default": None if req else cs(f.default),
+                    "help": f.metadata.get("custom_args", {}).get("help")})
     return out
+
+
+def _doc_entries(doc):
+    """what the real `_parse_args_from_docstring` reads from a docstring (used to tell when the help is ambiguous)"""
+    from simple_parsing.helpers.partial import _parse_args_from_docstring
+
+    try:
+        return {"o": "ok", "entries": [[k, v] for k, v in _parse_args_from_docstring(doc or "").items()]}
+    except (ValueError, KeyError) as e:
+        return {"o": "raise", "exc": type(e).__name__}
+
+
+def _target_docs(target):
+    cd = target.__doc__
+    idoc = target.__init__.__doc__ if inspect.isclass(target) else None
+    return {"class_doc": cd, "init_doc": idoc, "class_entries": _doc_entries(cd),
+            "init_entries": _doc_entries(idoc) if inspect.isclass(target) else {"o": "ok", "entries": []}}
 
 
 def _options_per_field(cls):
@@ -917,6 +1076,7 @@ def _options_per_field(cls):
     for a in parser._actions:
         if a.dest.startswith("cfg."):
             counts[a.dest[4:]] = counts.get(a.dest[4:], 0) + 1
+            counts["help:" + a.dest[4:]] = a.help
     return counts
 
 
@@ -933,7 +1093,7 @@ def impl_config(c):
             ov.append([k, {"v": cs(val), "shape": shape_of(val)}])
         src = _config_for_src(t["name"], c["ignore"], c["overrides"], c["frozen"])
         r = sp.run_outcome(lambda: eval(src, env))  # noqa: S307
-        obs = {"sig": sig, "overrides": ov, "call": src}
+        obs = {"sig": sig, "overrides": ov, "call": src, "docs": _target_docs(getattr(mod, t["name"]))}
         if r["o"] != "ok":
             obs["out"] = {"o": "raise", "exc": r.get("exc"), "msg": r.get("msg", "")}
             return obs
@@ -1054,11 +1214,70 @@ def impl_cache(c):
         return {"ids": ids, "fields": fields}
 
 
+def impl_docargs(c):
+    return {"out": _doc_entries(c["doc"])}
+
+
+OTHERS_SRC = '''
+
+def _mk_other(i):
+    def other(a: int = 1, b: str = "x"):
+        return (i, a, b)
+    return other
+
+
+OTHERS = [_mk_other(i) for i in range(%d)]
+'''
+
+
+def impl_cachemany(c):
+    import simple_parsing
+    from simple_parsing.helpers.partial import config_for
+
+    t = c["target"]
+    argv = _partial_argv(c)
+    with temp_module(_cfg_module_source([t]) + OTHERS_SRC % c["k"]) as mod:
+        env = dict(vars(mod), config_for=config_for)
+        src = _config_for_src(t["name"], c["ignore"], c["overrides"], c["frozen"])
+
+        def request():
+            r = sp.run_outcome(lambda: eval(src, env))  # noqa: S307
+            if r["o"] != "ok":
+                return None, None, {"o": "raise", "exc": r.get("exc"), "msg": r.get("msg", "")}
+            sp.reset_globals()
+            pr = sp.run_outcome(lambda: simple_parsing.parse(r["value"], dest="cfg", args=list(argv), add_config_path_arg=False))
+            return r["value"], (pr["value"] if pr["o"] == "ok" else None), _outcome(pr)
+
+        c1, o1, out1 = request()
+        if c1 is None:
+            return {"argv": argv, "first": out1, "ids": []}
+        seen = {id(c1): 0}
+        keep = [c1]
+        ids = [0]
+        for f in mod.OTHERS:
+            r = sp.run_outcome(lambda: config_for(f))
+            if r["o"] != "ok":
+                ids.append({"raise": r.get("exc")})
+                continue
+            keep.append(r["value"])
+            ids.append(seen.setdefault(id(r["value"]), len(seen)))
+        c2, o2, out2 = request()
+        if c2 is None:
+            return {"argv": argv, "first": out1, "second": out2, "ids": ids}
+        keep.append(c2)
+        ids.append(seen.setdefault(id(c2), len(seen)))
+        obs = {"argv": argv, "first": out1, "second": out2, "ids": ids, "same": c2 is c1}
+        if o1 is not None and o2 is not None:
+            obs["isinstance"] = isinstance(o1, c2)
+            obs["equal"] = bool(o1 == o2)
+        return obs
+
+
 def impl(case):
     op, c = case["op"], case["case"]
     return {"call.keep": impl_keep, "call.infer": impl_infer, "call.bind": impl_bind, "call.fields": impl_fields,
             "call.main": impl_main, "call.config": impl_config, "call.partial": impl_partial,
-            "call.cache": impl_cache}[op](c)
+            "call.cache": impl_cache, "call.docargs": impl_docargs, "call.cachemany": impl_cachemany}[op](c)
 
 
 # ------------------------------------------------------------------------------------------------
@@ -1096,13 +1315,30 @@ def model_case(case, obs):
     if op == "call.config":
         t = c["target"]
         return {"sig": obs["sig"], "class_ann": [n for n, _ in t["class_ann"]], "ignore": ignore_names(c["ignore"]),
-                "overrides": obs["overrides"]}
+                "overrides": obs["overrides"], "class_doc": obs["docs"]["class_doc"], "init_doc": obs["docs"]["init_doc"]}
+    if op == "call.docargs":
+        return {"doc": c["doc"]}
+    if op == "call.cachemany":
+        main = {"target": 0, "ignore": c["ignore"], "frozen": c["frozen"], "defaults": [[k, v] for k, v in c["overrides"]],
+                "hashable": True}
+        others = [{"target": i + 1, "ignore": {"form": "absent"}, "frozen": None, "defaults": [], "hashable": True}
+                  for i in range(c["k"])]
+        return {"calls": [main] + others + [main]}
     if op == "call.partial":
         return {"sig": obs["sig"], "parse": _parse_for_model(obs["plain"]), "args": [cs(v) for v in c["call_args"]],
                 "kwargs": [[k, cs(v)] for k, v in c["call_kw"]]}
     if op == "call.cache":
         return {"calls": [_cache_key(call) for call in c["calls"]]}
     raise ValueError(op)
+
+
+def _help_ambiguous(docs, name):
+    """`set.pop()` over two or more distinct descriptions: which one is taken depends on the hash seed"""
+    def cands(e):
+        return {v for k, v in e.get("entries", []) if k.startswith(name)}
+
+    init = cands(docs["init_entries"])
+    return len(init or cands(docs["class_entries"])) > 1
 
 
 def _front_project(f):
@@ -1135,7 +1371,14 @@ def project(case, obs):
         return _front_project(obs["main"])
     if op == "call.config":
         o = obs["out"]
-        return {"o": "ok", "fields": o["fields"]} if o["o"] == "ok" else {"o": "raise", "exc": o["exc"]}
+        if o["o"] != "ok":
+            return {"o": "raise", "exc": o["exc"]}
+        return {"o": "ok", "fields": [dict(f, help=(None if _help_ambiguous(obs["docs"], f["name"]) else f["help"]))
+                                      for f in o["fields"]]}
+    if op == "call.docargs":
+        return obs["out"]
+    if op == "call.cachemany":
+        return {"ids": obs["ids"]}
     if op == "call.partial":
         return _front_project(obs["front"])
     if op == "call.cache":
@@ -1214,11 +1457,57 @@ def oracle(case, obs):
             if obs["plain"]["setup"]["o"] == "ok" and m["setup"]["o"] != "ok":
                 fails.append({"clause": "all-types", "detail": f"set-up of the synthesised class raises {m['setup']}",
                               "front": m["setup"]})
+    elif op == "call.docargs":
+        b, out = c.get("block"), obs["out"]
+        if b is not None and not b.get("malformed"):
+            if out["o"] != "ok":
+                fails.append({"clause": "doc-args", "detail": f"well-formed Args section rejected: {out}"})
+            else:
+                got = {k: " ".join(v.split()) for k, v in out["entries"]}
+                for e in b["entries"]:
+                    exp = " ".join((e["desc"] + " " + " ".join(e["cont"])).split())
+                    if got.get(e["key"]) != exp:
+                        fails.append({"clause": "doc-args", "detail": f"entry {e['key']!r}: read {got.get(e['key'])!r}, documented {exp!r}"})
+    elif op == "call.cachemany":
+        if not obs["ids"] or "second" not in obs or "same" not in obs:
+            fails.append({"clause": "derive", "detail": f"config_for failed: {obs.get('first')} / {obs.get('second')}"})
+        else:
+            if not obs["same"]:
+                fails.append({"clause": "cached", "detail": f"after {c['k']} other callables config_for returns a different class "
+                                                            f"for the same callable and arguments"})
+            if obs.get("isinstance") is False:
+                fails.append({"clause": "cached", "detail": f"after {c['k']} other callables the object parsed earlier is no "
+                                                            f"longer an instance of the derived class"})
+            if obs.get("equal") is False:
+                fails.append({"clause": "cached", "detail": f"after {c['k']} other callables two parses of the same argv compare unequal"})
+            if any(isinstance(i, dict) for i in obs["ids"]):
+                fails.append({"clause": "derive", "detail": "config_for failed for a plain annotated function"})
     elif op == "call.config":
         o = obs["out"]
+        t = c["target"]
+        if o["o"] != "ok":
+            ign0 = set(ignore_names(c["ignore"]))
+            ov0 = dict(c["overrides"])
+            cann = {a for a, _ in t["class_ann"]}
+            uninferable = any(p["name"] not in ign0 and p["ty"] is None and p["name"] not in cann
+                              and ov0.get(p["name"], p["dflt"]) in ("None", 'Path("p")') for p in t["params"])
+            explained = (o["exc"] == "NotImplementedError" and uninferable) or \
+                        (o["exc"] in ("ValueError", "KeyError") and docs_malformed(t))
+            if not explained:
+                fails.append({"clause": "derive", "detail": f"{obs['call']} raises {o['exc']}: {o.get('msg', '')[:120]} "
+                                                            f"(docstrings: {obs['docs']['class_doc']!r} / {obs['docs']['init_doc']!r})"})
         if o["o"] == "ok":
-            t = c["target"]
             ign = set(ignore_names(c["ignore"]))
+            docs = t.get("docs") or {}
+            for f in o["fields"]:
+                cands = documented_help(docs.get("init"), f["name"]) or documented_help(docs.get("class"), f["name"])
+                if cands:
+                    if " ".join((f["help"] or "").split()) not in cands:
+                        fails.append({"clause": "help", "detail": f"{f['name']}: help {f['help']!r}, documented {cands}"})
+                    ah = obs["options"].get("help:" + f["name"]) if isinstance(obs["options"], dict) else None
+                    # (an action may decorate the text, e.g. the boolean action appends "(default: …)")
+                    if ah is not None and not any(cand in " ".join(ah.split()) for cand in cands):
+                        fails.append({"clause": "help", "detail": f"{f['name']}: parser help {ah!r}, documented {cands}"})
             ov = {k: v for k, v in obs["overrides"]}
             sigd = {p["name"]: p for p in obs["sig"]}
             got = {f["name"]: f for f in o["fields"]}
@@ -1250,7 +1539,10 @@ def oracle(case, obs):
     elif op == "call.partial":
         f, plain = obs["front"], obs["plain"]
         has_po = any(p["kind"] == "posOnly" for p in c["target"]["params"])
-        if f.get("stage") == "config_for" or has_po:
+        if f.get("stage") == "config_for":
+            if not docs_malformed(c["target"]):
+                fails.append({"clause": "derive", "detail": f"config_for raises {f.get('exc')}: {f.get('msg', '')[:120]}"})
+        elif has_po:
             pass
         elif plain["o"] == "ok":
             exp = obs["expected"]
@@ -1311,6 +1603,10 @@ def nontrivial(case, obs):
         return len(c["target"]["params"]) >= 2 and (len(obs["argv"]) > 0 or bool(c["call_kw"]))
     if op == "call.cache":
         return len(c["calls"]) >= 2
+    if op == "call.cachemany":
+        return c["k"] >= 2
+    if op == "call.docargs":
+        return obs["out"]["o"] == "ok" and len(obs["out"]["entries"]) >= 1
     return op == "call.infer"
 
 
@@ -1340,6 +1636,15 @@ def tags(case, obs):
     elif op == "call.config":
         t.append("config:" + obs["out"]["o"] + (":" + str(obs["out"].get("exc")) if obs["out"]["o"] != "ok" else ""))
         t.append("ignore:" + c["ignore"]["form"])
+        for where, b in (c["target"].get("docs") or {}).items():
+            if b is not None:
+                t.append("doc:" + where)
+                if any(":" in e["desc"] for e in b["entries"]):
+                    t.append("doc:second-colon")
+                if any(e["cont"] for e in b["entries"]):
+                    t.append("doc:continuation")
+                if b.get("malformed"):
+                    t.append("doc:malformed")
         t.append("target:" + ("class" if c["target"]["is_class"] else "function"))
     elif op == "call.partial":
         f = obs["front"]
@@ -1347,6 +1652,11 @@ def tags(case, obs):
         t.append("target:" + ("class" if c["target"]["is_class"] else "function"))
         if c["call_kw"]:
             t.append("explicit-kwargs")
+    elif op == "call.cachemany":
+        t.append(f"others:{c['k']}")
+        t.append("same:" + str(obs.get("same")))
+    elif op == "call.docargs":
+        t.append("docargs:" + obs["out"]["o"] + (":" + obs["out"]["exc"] if obs["out"]["o"] != "ok" else ""))
     elif op == "call.cache":
         t.append(f"calls:{len(c['calls'])}")
         t.append(f"distinct:{len({json.dumps(i) for i in obs['ids']})}")
@@ -1378,7 +1688,32 @@ def shrink(case):
         for key, empty in (("extra", []), ("other_kw", []), ("other_args", []), ("doc", False), ("future", False)):
             if c.get(key):
                 yield {"op": op, "case": dict(c, **{key: empty})}
-    elif op == "call.partial":
+    if op in ("call.config", "call.partial", "call.cachemany"):
+        t = c["target"]
+        docs = t.get("docs") or {}
+        for where in ("class", "init"):
+            b = docs.get(where)
+            if b is None:
+                continue
+            yield {"op": op, "case": dict(c, target=dict(t, docs=dict(docs, **{where: None})))}
+            for i in range(len(b["entries"])):
+                nb = dict(b, entries=b["entries"][:i] + b["entries"][i + 1:])
+                yield {"op": op, "case": dict(c, target=dict(t, docs=dict(docs, **{where: nb})))}
+            for i, e in enumerate(b["entries"]):
+                if e["cont"] or e["key"] != e["key"].split(" ")[0]:
+                    ne = dict(e, cont=[], key=e["key"].split(" ")[0], pre=" ", trail="")
+                    nb = dict(b, entries=b["entries"][:i] + [ne] + b["entries"][i + 1:])
+                    yield {"op": op, "case": dict(c, target=dict(t, docs=dict(docs, **{where: nb})))}
+            if b["intro"] or b["returns"]:
+                yield {"op": op, "case": dict(c, target=dict(t, docs=dict(docs, **{where: dict(b, intro=None, returns=False)})))}
+        if op == "call.config":
+            for i in range(len(c["overrides"])):
+                yield {"op": op, "case": dict(c, overrides=c["overrides"][:i] + c["overrides"][i + 1:])}
+    if op == "call.cachemany":
+        for k in CACHE_KS + [129, 128, 200]:
+            if k < c["k"]:
+                yield {"op": op, "case": dict(c, k=k)}
+    if op == "call.partial":
         for key in ("given", "call_kw", "extra", "overrides"):
             for i in range(len(c.get(key, []))):
                 yield {"op": op, "case": dict(c, **{key: c[key][:i] + c[key][i + 1:]})}
@@ -1401,8 +1736,9 @@ MANIFEST = {
              "equivalent dataclass does); "
              "config_for yields exactly one field per non-ignored typed parameter with the override/signature default "
              "(exact list characterisation); Partial.__call__ passes field values with explicit kwargs winning and binds "
-             "them to the target's parameters; a cached key returns the stored class after any further calls. The model is "
-             "tied to the code by eight correspondence ops and the property's statement is evaluated on every real call "
+             "them to the target's parameters; a cached key returns the stored class after any number of further calls "
+             "(unbounded cache); an Args entry is split at its first colon only, so descriptions may contain colons. The model is "
+             "tied to the code by ten correspondence ops and the property's statement is evaluated on every real call "
              "(recording stub vs. direct call with values from the equivalent hand-written dataclass)."),
     "note": ("Trusted: Lean kernel + standard axioms; inspect.signature, make_dataclass, CPython argument binding "
              "(modelled, compared by op call.bind), lru_cache keying; the parse of the synthesised class is a parameter of "
